@@ -1,6 +1,7 @@
 import Lean.Data.Json
 import O2P.Model.Time
 import O2P.Model.Seq
+import O2P.Model.Store
 /-!
 Model driver: one JSON request per line on stdin, one JSON reply per line on stdout.
 Numbers that may exceed 2^53 travel as decimal strings.
@@ -136,6 +137,98 @@ def job (j : Json) : Except String Json := do
 
 end SeqOps
 
+namespace StoreOps
+open O2P.Store
+
+def parseNode (j : Json) : Except String Node := do
+  pure { jobName := ← getStr j "jobName", jobId := ← getStr j "jobId", typ := ← getStr j "typ",
+         id := ← getStr j "id", start := ← getIntS j "start", stop := ← getIntS j "end",
+         app := ← getStr j "app",
+         -- `convert_otel_event_to_node_model`: `parent_event_id or None` (the empty string is falsy)
+         parent := match j.getObjVal? "parent" with
+           | .ok (.str p) => if p.isEmpty then none else some p
+           | _ => none }
+
+def nodeJson (n : Node) : Json :=
+  Json.mkObj [("jobName", n.jobName), ("jobId", n.jobId), ("typ", n.typ), ("id", n.id),
+    ("start", Json.str (toString n.start)), ("end", Json.str (toString n.stop)), ("app", n.app),
+    ("parent", match n.parent with
+      | some p => Json.str p
+      | none => Json.null)]
+
+partial def shapeJson : Shape → Json
+  | .mk t cs => Json.arr (#[Json.str t] ++ (cs.map shapeJson).toArray)
+
+def parseFilter (j : Json) : Except String (Option (List (String × List String))) :=
+  match j with
+  | .null => pure none
+  | .arr a => do
+    let l ← a.toList.mapM fun e => match e with
+      | .arr #[.str nm, .arr ids] => do pure (nm, ← strList ids)
+      | _ => throw "bad filter entry"
+    pure (some l)
+  | _ => throw "bad filter"
+
+def outcomeJson : Outcome → Json
+  | .ok => "ok"
+  | .integrity => "integrity"
+
+def step (batch : Nat) (buffer : Int) (h : Holder) (st : Json) : Except String (Holder × Json) := do
+  match st with
+  | .arr a =>
+    let tag : Option Json := a[0]?
+    let arg : Option Json := a[1]?
+    match tag with
+    | some (.str "newrun") => pure (Holder.fresh h.store, "ok")
+    | some (.str "ingest") =>
+      let evs ← match arg with
+        | some (.arr es) => es.toList.mapM parseNode
+        | _ => throw "ingest needs events"
+      let (h1, o) := ingest batch h evs
+      pure (h1, outcomeJson o)
+    | some (.str "clean_inconsistent") => pure ({ h with store := removeInconsistent h.store }, "ok")
+    | some (.str "clean_window") =>
+      match timeWindow buffer h with
+      | none => pure (h, "valueerror")
+      | some w => pure ({ h with store := removeOutside w h.store }, "ok")
+    | some (.str "rename") => pure ({ h with store := renameByRoot h.store }, "ok")
+    | some (.str "unique") =>
+      match timeWindow buffer h with
+      | none => pure (h, "valueerror")
+      | some w =>
+        match computeHashes w h.store with
+        | none => pure (h, "integrity")
+        | some s1 =>
+          let cls := shapeClasses s1
+          pure ({ h with store := s1 }, Json.arr (cls.map fun (nm, sh, ids) =>
+            Json.mkObj [("name", nm), ("shape", shapeJson sh), ("ids", Json.arr (ids.map Json.str).toArray)]).toArray)
+    | some (.str "stream") =>
+      let filt ← parseFilter (arg.getD Json.null)
+      let r := stream h.store filt
+      pure (h, Json.arr (r.map fun (nm, jobs) => Json.arr #[Json.str nm, Json.arr (jobs.map fun (jid, ns) =>
+        Json.arr #[Json.str jid, Json.arr (ns.map fun n =>
+          Json.mkObj [("node", nodeJson n), ("children", Json.arr ((childrenOf h.store n.id).map Json.str).toArray)]).toArray]).toArray]).toArray)
+    | some (.str "dump") =>
+      pure (h, Json.mkObj [("nodes", Json.arr (h.store.nodes.map nodeJson).toArray),
+        ("assoc", Json.arr (h.store.assoc.map fun (p, c) => Json.arr #[Json.str p, Json.str c]).toArray),
+        ("hashes", Json.arr (h.store.hashes.map fun (jid, nm, _) => Json.arr #[Json.str jid, Json.str nm]).toArray)])
+    | _ => throw "unknown step"
+  | _ => throw "step must be an array"
+
+def script (j : Json) : Except String Json := do
+  let batch ← getNatS j "batch"
+  let buffer ← getIntS j "buffer"
+  let steps ← getArr j "script"
+  let mut h := Holder.fresh Store.empty
+  let mut out : Array Json := #[]
+  for st in steps do
+    let (h1, r) ← step batch buffer h st
+    h := h1
+    out := out.push r
+  pure (Json.mkObj [("results", Json.arr out)])
+
+end StoreOps
+
 def handle (j : Json) : Except String Json := do
   let op ← getStr j "op"
   match op with
@@ -143,6 +236,7 @@ def handle (j : Json) : Except String Json := do
   | "time.toNanos" => TimeOps.opToNanos j
   | "time.formatMicros" => TimeOps.opFormatMicros j
   | "seq.job" => SeqOps.job j
+  | "store.script" => StoreOps.script j
   | _ => throw s!"unknown op {op}"
 
 partial def loop (h : IO.FS.Stream) (out : IO.FS.Stream) : IO Unit := do
